@@ -44,6 +44,8 @@ struct Model {
 #[derive(Clone, Debug, Serialize, Deserialize)]
 enum Act {
     Approve { key: usize, c: Content },
+    /// one signed batch with two messages, in this order
+    ApproveBatch { first: (usize, Content), second: (usize, Content) },
     Execute { app: u8, key: usize, src: u8, payload: u8 },
     /// a third party calls gateway.validate_message for itself (it is not the destination)
     ThirdPartyValidate { key: usize, src: u8, payload: u8 },
@@ -98,6 +100,11 @@ impl Scenario for C16 {
                 }
             }
         }
+        let c0 = Content { app: 0, src: 0, payload: 0 };
+        let c1 = Content { app: 1, src: 0, payload: 0 };
+        for (a, b) in [((0usize, c0), (1usize, c0)), ((1, c0), (0, c0)), ((1, c1), (0, c1)), ((0, c1), (0, c0))] {
+            v.push(Act::ApproveBatch { first: a, second: b });
+        }
         for key in 0..2usize {
             v.push(Act::ThirdPartyValidate { key, src: 0, payload: 0 });
         }
@@ -137,6 +144,26 @@ impl Scenario for C16 {
                 out.expect(call.ok, "approve.rejected", || call.err.clone());
                 if call.ok && m.status[*key] == Status::NotApproved {
                     m.status[*key] = Status::Approved(*c);
+                }
+            }
+            Act::ApproveBatch { first, second } => {
+                out.kind = "approve";
+                let mk = |(key, c): &(usize, Content)| {
+                    let (chain, id) = KEYS[*key];
+                    msg_scval(
+                        &Msg { chain: chain.into(), id: id.into(), src: src_str(c.src).into(), dest: 0, payload_hash: keccak(&payload_of(c.payload)) },
+                        &w.sc_addr(&ctx.apps[c.app as usize]),
+                    )
+                };
+                let call = approve(w, &ctx.gw, &ctx.keys, &ctx.set, &DOMAIN, &[mk(first), mk(second)]);
+                out.accepted = call.ok;
+                out.expect(call.ok, "approve.rejected", || call.err.clone());
+                if call.ok {
+                    for (key, c) in [first, second] {
+                        if m.status[*key] == Status::NotApproved {
+                            m.status[*key] = Status::Approved(*c);
+                        }
+                    }
                 }
             }
             Act::ThirdPartyValidate { key, src, payload } => {
